@@ -2,7 +2,7 @@
    Proved here: the sender-side mechanisms (staleness test, resend flag, dead references); that each
    Unreliable/TimeSensitive fragment occurs at most once in the emitted frames is checked on the
    implementation's frames by the oracle and through the model correspondence (see DESIGN.md). *)
-From UF Require Import Consts Base Frame Codec Sender Heap FrameQueue HalfConn HcLemmas ResendKept HcTotal EmitRefs TsEpoch.
+From UF Require Import Consts Base Frame Codec Sender Heap FrameQueue HalfConn HcLemmas ResendKept HcTotal EmitRefs TsEpoch PullBegins.
 
 (* a packet leaves the send queue with the next sequence id, never as a stale TimeSensitive packet, and is
    marked for retransmission exactly when its mode is Persistent or Reliable *)
@@ -111,6 +111,16 @@ Theorem C12_nothing_else_leaves_the_queue :
   forall s fid s', sender_emit_packet s fid = (s', None) ->
   exists dropped, s_queue s = dropped ++ s_queue s' /\ Forall (stale_ts fid) dropped.
 Proof. exact emit_packet_none. Qed.
+
+(* emit_data_frames takes a packet off the send queue only after check_push() succeeded; after that the push of a
+   fragment cannot fail: it ends up in the frame under construction (and, if resendable, in its reference list) *)
+Theorem C12_check_push_guarantees_push :
+  forall e e' uid frag resend we,
+  HcInv (es_h e) -> dfe_check_push e = (e', None) -> sender_lookup (h_snd (es_h e)) uid = Some we ->
+  e' = e /\ exists e1 ip, dfe_push e uid frag resend = Ok (e1, None) /\ es_ip e1 = Some ip /\
+    (resend = true -> In (mkFragRef uid frag) (ip_refs ip)).
+Proof. exact check_push_guarantees_push. Qed.
+Print Assumptions C12_check_push_guarantees_push.
 
 (* non-vacuity: a TimeSensitive packet flushed in the epoch of its send() goes out as a 19-byte frame; after one
    more step() the flush emits nothing and the packet is gone from the queue *)
